@@ -569,6 +569,10 @@ def _gen(seed, tier, opts):
             pt = {}
             for inp in model.inputs:
                 pt[inp.name] = inp.draw(nprng, rng) if rng.random() < 0.5 else inp.nom.copy()
+            if zoo.is_wind_off(pt):
+                # wind-off (rho = 0) makes coefficient-type outputs 0/0: not an input for which "all outputs finite" can
+                # hold, so it is not part of C20's admissible set (C03 and C12 use it, NaN-pattern-aware)
+                pt["rho"] = model.inp("rho").nom.copy()
             points.append({k: np.asarray(v).tolist() for k, v in pt.items()})
         # setup() and final_setup() are separate steps so that the scheduler can put another tenant's set-up
         # between them (class-level state written in setup() and read later manifests exactly there)
